@@ -432,7 +432,9 @@ func runScenario(id int, sc Scenario, r *hx.Rand) {
 						row = append(row, -1)
 					}
 				}
-				all = append(all, row)
+				if len(op.Res.Units) > 0 { // results without measurements yield no key on .unit projections
+					all = append(all, row)
+				}
 			}
 		}
 		pe := "-"
